@@ -1,15 +1,45 @@
+/-!
+# Core/Cache — the weight-cache state machine of `nflows.transforms.linear.Linear` (C10), core Lean only
 
+Mirrors the code that exists in `/repo` NOW, i.e. after the commits
+`fix: Linear invalidates its weight cache on load_state_dict and on dtype/device conversion` (overrides of
+`_apply` and `_load_from_state_dict`, linear.py:93-101) and
+`fix: NaiveLinear.weight_inverse_and_logabsdet builds its identity in the weight's dtype` (linear.py:217-236).
+The machine of the code as it was BEFORE these commits (stale after load, dtype error after a cast) is kept
+as a documented historical counterexample in `Lemmas/CacheHistorical.lean`.
+
+Abstraction.  The parameters are abstracted to a version number `ver` (every parameter update and every
+`load_state_dict` makes a fresh version) and a dtype `dt`.  A tensor is abstracted to the version and dtype
+it was computed from plus one bit: has a backward pass already run through (and freed) its autograd graph.
+An output is right iff it was computed from the current version in the current dtype.
+
+Not fixed in `/repo` (known finding F11c) and therefore modelled as coded: the cached weight / inverse /
+log-abs-det keep the autograd graph they were built with, so a second forward+backward in evaluation mode with
+the cache on raises `RuntimeError: Trying to backward through the graph a second time`.
+-/
 namespace Cache
 
-/-! C10 cache machine spike (core Lean only) -/
 inductive DT | f32 | f64 deriving DecidableEq, Repr
 
+/-- torch type promotion restricted to the two floating dtypes -/
+def DT.promote : DT → DT → DT
+  | .f32, .f32 => .f32
+  | _, _ => .f64
+
+/-- `generic`: LULinear, QRLinear, SVDLinear, OneByOneConvolution (every cache slot holds a tensor COMPUTED from
+    the parameters: lu.py:93-118, qr.py:86-108, svd.py:98-122).
+    `naive`: NaiveLinear, whose `weight()` returns the parameter object itself (linear.py:202-206): the cached
+    weight is an alias of the live parameter (it follows in-place updates and has no autograd graph of its own);
+    its cached inverse and log-abs-det are computed tensors (linear.py:208-243). -/
+inductive Kind | generic | naive deriving DecidableEq, Repr
+
 structure Slot where
-  ver : Nat
-  dt : DT
+  ver : Nat              -- parameter version the tensor was computed from
+  dt : DT                -- dtype it was computed in
   graphFreed : Bool      -- a backward pass already ran through the cached tensor's graph
 deriving DecidableEq, Repr
 
+/-- linear.py:14-28 (`LinearCache`), 34-44 (`Linear.__init__`), `nn.Module.training` -/
 structure St where
   training : Bool := true
   usingCache : Bool := false
@@ -20,106 +50,144 @@ structure St where
   dt : DT := .f32
 deriving DecidableEq, Repr
 
-inductive Op | train | eval | useCache (b : Bool) | fwd | inv | update | load | cast (d : DT) | fwdBwd
+/-- The op alphabet of the property.  `update` is an in-place parameter update (what an optimiser step does:
+    `with torch.no_grad(): p.add_(…)`); the property only allows it in training mode, the machine says what the
+    code does in either mode.  `useCacheBad` is `use_cache(<non-bool>)`. -/
+inductive Op | train | eval | useCache (b : Bool) | useCacheBad | fwd | inv | update | load | cast (d : DT) | fwdBwd
 deriving DecidableEq, Repr
 
-inductive Out | none | ok (ver : Nat) (dt : DT) | errDtype | errBackward | errNotTraining
+/-- What a step returns to the caller.  `ok wv wdt lv ldt`: outputs were computed with the weight (or inverse) of
+    parameter version `wv` and have dtype `wdt`; the log-abs-det is that of version `lv` and has dtype `ldt`. -/
+inductive Out
+  | none
+  | ok (wv : Nat) (wdt : DT) (lv : Nat) (ldt : DT)
+  | errType        -- TypeError (use_cache with a non-bool, linear.py:104-105)
+  | errDtype       -- RuntimeError: dtype mismatch inside F.linear (cached tensor of another dtype than the inputs)
+  | errBackward    -- RuntimeError: Trying to backward through the graph a second time
 deriving DecidableEq, Repr
 
-def fill (s : St) (c : Option Slot) : Slot := c.getD ⟨s.ver, s.dt, false⟩
+/-- a tensor computed now from the current parameters -/
+def fresh (s : St) : Slot := ⟨s.ver, s.dt, false⟩
 
-/-- mirrors linear.py:46-96 for LU/QR/SVD (cache slots hold tensors computed from the parameters) -/
-def step (s : St) : Op → St × Out
-  | .train => ({ s with training := true, cW := none, cInv := none, cLd := none }, .none)
+/-- `if slot is None: slot = compute()` (linear.py:55-63, 74-85: the three-way case split there fills exactly
+    the slots that are `None`; the combined `weight_and_logabsdet` / `weight_inverse_and_logabsdet` are only a
+    cheaper way to compute both) -/
+def fill (s : St) (c : Option Slot) : Slot := c.getD (fresh s)
+
+/-- what reading the cached WEIGHT yields: for `naive` the slot is the live parameter object -/
+def readW (k : Kind) (s : St) (w : Slot) : Slot :=
+  match k with
+  | .generic => w
+  | .naive => fresh s
+
+/-- a backward pass ran through the cached weight: its graph is freed (the aliased parameter has no graph) -/
+def markW (k : Kind) (w : Slot) : Slot :=
+  match k with
+  | .generic => { w with graphFreed := true }
+  | .naive => w
+
+/-- linear.py:25-28 `LinearCache.invalidate` -/
+def invalidate (s : St) : St := { s with cW := none, cInv := none, cLd := none }
+
+/-- the cached branch is taken iff `not self.training and self.using_cache` (linear.py:47, 66) -/
+def cachedMode (s : St) : Bool := !s.training && s.usingCache
+
+/-- value returned by a cached call reading weight-like slot `w` and log-abs-det slot `l` (linear.py:49-51,
+    68-70): `F.linear(inputs, w, …)` raises on a dtype mismatch; `l * outputs.new_ones(…)` promotes -/
+def cachedOut (s : St) (w l : Slot) : Out :=
+  if w.dt ≠ s.dt then .errDtype else .ok w.ver w.dt l.ver (DT.promote l.dt s.dt)
+
+/-- value returned by `forward_no_cache` / `inverse_no_cache`: recomputed from the current parameters -/
+def uncachedOut (s : St) : Out := .ok s.ver s.dt s.ver s.dt
+
+/-- One step of the machine; mirrors linear.py:46-106 for class kind `k`. -/
+def step (k : Kind) (s : St) : Op → St × Out
+  -- linear.py:87-91  train(True): invalidate, then nn.Module.train
+  | .train => ({ invalidate s with training := true }, .none)
+  -- linear.py:87-91  eval() = train(False): no invalidation (and no refill)
   | .eval => ({ s with training := false }, .none)
+  -- linear.py:103-106
   | .useCache b => ({ s with usingCache := b }, .none)
+  | .useCacheBad => (s, .errType)
+  -- linear.py:46-63
   | .fwd =>
-    if !s.training && s.usingCache then
+    if cachedMode s then
+      let w := fill s s.cW; let l := fill s s.cLd
+      ({ s with cW := some w, cLd := some l }, cachedOut s (readW k s w) l)
+    else (s, uncachedOut s)
+  -- linear.py:65-85
+  | .inv =>
+    if cachedMode s then
+      let w := fill s s.cInv; let l := fill s s.cLd
+      ({ s with cInv := some w, cLd := some l }, cachedOut s w l)
+    else (s, uncachedOut s)
+  -- in-place parameter update: nothing in linear.py reacts to it (the cache is NOT invalidated)
+  | .update => ({ s with ver := s.ver + 1 }, .none)
+  -- linear.py:98-101  _load_from_state_dict: invalidate, then copy the loaded values into the parameters
+  | .load => ({ invalidate s with ver := s.ver + 1 }, .none)
+  -- linear.py:93-96  _apply (called by .double()/.float()/.to()): invalidate, then convert the parameters
+  | .cast d => ({ invalidate s with dt := d }, .none)
+  -- forward on inputs that require grad, loss = outputs.sum() + logabsdet.sum(), loss.backward()
+  | .fwdBwd =>
+    if cachedMode s then
       let w := fill s s.cW; let l := fill s s.cLd
       let s' := { s with cW := some w, cLd := some l }
-      if w.dt ≠ s.dt then (s', .errDtype) else (s', .ok w.ver w.dt)
-    else (s, .ok s.ver s.dt)
-  | .inv =>
-    if !s.training && s.usingCache then
-      let w := fill s s.cInv; let l := fill s s.cLd
-      let s' := { s with cInv := some w, cLd := some l }
-      if w.dt ≠ s.dt then (s', .errDtype) else (s', .ok w.ver w.dt)
-    else (s, .ok s.ver s.dt)
-  | .update => if s.training then ({ s with ver := s.ver + 1 }, .none) else (s, .errNotTraining)
-  | .load => ({ s with ver := s.ver + 1 }, .none)
-  | .cast d => ({ s with dt := d }, .none)
-  | .fwdBwd =>
-    if !s.training && s.usingCache then
-      let w := fill s s.cW; let l := fill s s.cLd
-      if w.dt ≠ s.dt then ({ s with cW := some w, cLd := some l }, .errDtype)
-      else if w.graphFreed || l.graphFreed then ({ s with cW := some w, cLd := some l }, .errBackward)
-      else ({ s with cW := some { w with graphFreed := true }, cLd := some { l with graphFreed := true } }, .ok w.ver w.dt)
-    else (s, .ok s.ver s.dt)
+      let rw := readW k s w
+      match cachedOut s rw l with
+      | .ok wv wdt lv ldt =>
+        -- backward runs through the graphs the cached tensors were built with (the aliased parameter has none)
+        if rw.graphFreed || l.graphFreed then (s', .errBackward)
+        else
+          ({ s with cW := some (markW k w), cLd := some { l with graphFreed := true } }, .ok wv wdt lv ldt)
+      | o => (s', o)
+    else (s, uncachedOut s)
 
-/-- reference: same machine with the cache switched off -/
-def stepRef (s : St) (o : Op) : St × Out := 
-  let (s', out) := step { s with usingCache := false } o
-  ({ s' with usingCache := false }, out)
+/-- The reference: the same transform "recomputing from the current parameters without the cache".  Its only
+    state is the parameters themselves. -/
+structure Params where
+  ver : Nat
+  dt : DT
+deriving DecidableEq, Repr
 
-def run (f : St → Op → St × Out) : St → List Op → List Out
+def St.params (s : St) : Params := ⟨s.ver, s.dt⟩
+
+def refStep (p : Params) : Op → Params × Out
+  | .train | .eval | .useCache _ => (p, .none)
+  | .useCacheBad => (p, .errType)
+  | .fwd | .inv | .fwdBwd => (p, .ok p.ver p.dt p.ver p.dt)
+  | .update | .load => ({ p with ver := p.ver + 1 }, .none)
+  | .cast d => ({ p with dt := d }, .none)
+
+def run {σ : Type} (f : σ → Op → σ × Out) : σ → List Op → List Out
   | _, [] => []
-  | s, o :: os => let (s', out) := f s o; out :: run f s' os
+  | s, o :: os => let r := f s o; r.2 :: run f r.1 os
 
-def current (s : St) (c : Option Slot) : Prop := ∀ x, c = some x → x.ver = s.ver ∧ x.dt = s.dt ∧ x.graphFreed = false
-def CInv (s : St) : Prop := (s.training = true → s.cW = none ∧ s.cInv = none ∧ s.cLd = none) ∧
-  current s s.cW ∧ current s s.cInv ∧ current s s.cLd
+/-- per-step trace (state after the step, observable of the step): what the driver prints -/
+def trace (k : Kind) : St → List Op → List (St × Out)
+  | _, [] => []
+  | s, o :: os => let r := step k s o; r :: trace k r.1 os
 
-def benign : Op → Bool
-  | .load => false | .cast _ => false | .fwdBwd => false | _ => true
+/-- hypothesis of the property's alphabet: parameter updates happen in training mode only
+    (`tr` = the training flag before the history) -/
+def updatesOnlyInTraining (tr : Bool) : List Op → Bool
+  | [] => true
+  | .train :: os => updatesOnlyInTraining true os
+  | .eval :: os => updatesOnlyInTraining false os
+  | .update :: os => tr && updatesOnlyInTraining tr os
+  | _ :: os => updatesOnlyInTraining tr os
 
-theorem inv_init : CInv ({} : St) := by simp [CInv, current]
-
-theorem inv_step (s : St) (o : Op) (hb : benign o = true) (h : CInv s) : CInv (step s o).1 := by
-  obtain ⟨ht, hw, hi, hl⟩ := h
-  cases o <;> simp [benign] at hb <;> simp only [step]
-  case train => simp [CInv, current]
-  case eval => exact ⟨by simp, hw, hi, hl⟩
-  case useCache b => exact ⟨by simpa using ht, hw, hi, hl⟩
-  case fwd =>
-    by_cases hc : (!s.training && s.usingCache) = true
-    · have htr : s.training = false := by simp at hc; exact hc.1
-      have key : ∀ c, current s c → current s (some (fill s c)) := by
-        intro c hcur x hx
-        cases c with
-        | none => simp [fill] at hx; subst hx; simp
-        | some y => simp [fill] at hx; subst hx; exact hcur y rfl
-      simp only [hc, if_true]
-      split <;> exact ⟨by simp [htr], key _ hw, hi, key _ hl⟩
-    · simp only [hc]; exact ⟨ht, hw, hi, hl⟩
-  case inv =>
-    by_cases hc : (!s.training && s.usingCache) = true
-    · have htr : s.training = false := by simp at hc; exact hc.1
-      have key : ∀ c, current s c → current s (some (fill s c)) := by
-        intro c hcur x hx
-        cases c with
-        | none => simp [fill] at hx; subst hx; simp
-        | some y => simp [fill] at hx; subst hx; exact hcur y rfl
-      simp only [hc, if_true]
-      split <;> exact ⟨by simp [htr], hw, key _ hi, key _ hl⟩
-    · simp only [hc]; exact ⟨ht, hw, hi, hl⟩
-  case update =>
-    by_cases htr : s.training = true
-    · obtain ⟨e1, e2, e3⟩ := ht htr
-      simp only [htr, if_true]
-      exact ⟨fun _ => ⟨e1, e2, e3⟩, by simp [current, e1], by simp [current, e2], by simp [current, e3]⟩
-    · simp only [htr]; exact ⟨ht, hw, hi, hl⟩
-
-/-- minimal failing histories of the full-strength statement -/
-theorem stale_after_load :
-    run step {} [.eval, .useCache true, .fwd, .load, .fwd] ≠ run stepRef {} [.eval, .useCache true, .fwd, .load, .fwd] := by
-  decide
-theorem dtype_after_cast :
-    run step {} [.eval, .useCache true, .fwd, .cast .f64, .fwd] ≠ run stepRef {} [.eval, .useCache true, .fwd, .cast .f64, .fwd] := by
-  decide
-theorem second_backward :
-    run step {} [.eval, .useCache true, .fwdBwd, .fwdBwd] ≠ run stepRef {} [.eval, .useCache true, .fwdBwd, .fwdBwd] := by
-  decide
-
-
+/-- forced hypothesis (known finding F11c): between two invalidations (`train`, `load`, `cast`) at most one
+    `fwdBwd` is executed in evaluation mode with the cache on.  `tr`, `uc` = training / using_cache flags before
+    the history, `used` = such a backward already happened since the last invalidation. -/
+def noRepeatedBackward (tr uc used : Bool) : List Op → Bool
+  | [] => true
+  | .train :: os => noRepeatedBackward true uc false os
+  | .eval :: os => noRepeatedBackward false uc used os
+  | .useCache b :: os => noRepeatedBackward tr b used os
+  | .load :: os => noRepeatedBackward tr uc false os
+  | .cast _ :: os => noRepeatedBackward tr uc false os
+  | .fwdBwd :: os =>
+    if !tr && uc then (!used && noRepeatedBackward tr uc true os) else noRepeatedBackward tr uc used os
+  | _ :: os => noRepeatedBackward tr uc used os
 
 end Cache
